@@ -19,7 +19,9 @@ namespace Hio.Path
 abbrev Seg := List Nat
 abbrev P := List Seg
 
-inductive Kind | dir | file
+/-- `flink` / `dlink`: a symbolic link whose target is an existing regular file / directory somewhere else (the target is an
+entry of its own; no operation of the Filer reaches it through the link) -/
+inductive Kind | dir | file | flink | dlink
 deriving DecidableEq, Repr
 
 abbrev FS := List (P × Kind)
@@ -92,6 +94,30 @@ def tailSegs (clean : Bool) : List Seg :=
 def fullPath (head : P) (clean : Bool) (base name : List Nat) : P :=
   (walk head.reverse (tailSegs clean ++ splitSlash base ++ splitSlash name)).reverse
 
+/-- `AltCleanTailDirPath if clean else AltTailDirPath` (regenerated from the class, like `tailSegs`) -/
+def altTailSegs (clean : Bool) : List Seg :=
+  if clean then Gen.filerAltCleanTail else Gen.filerAltTail
+
+/-- `os.path.abspath(os.path.expanduser(os.path.join(head, tail, base, name)))` for an already resolved `head` -/
+def fullPathT (head : P) (tail : List Seg) (base name : List Nat) : P :=
+  (walk head.reverse (tail ++ splitSlash base ++ splitSlash name)).reverse
+
+/-- what a head-directory STRING means once `os.path.expanduser` and `os.path.abspath` have been applied to the path
+joined onto it: an absolute head is itself, a head that is `~` or starts with `~/` lies below the home directory,
+every other head — the empty string and `.` included — lies below the current directory -/
+def resolveHead (home cwd : P) (h : List Nat) : P :=
+  match h with
+  | 47 :: _ => (walk [] (splitSlash h)).reverse
+  | [126] => home
+  | 126 :: 47 :: rest => (walk home.reverse (splitSlash rest)).reverse
+  | _ => (walk cwd.reverse (splitSlash h)).reverse
+
+/-- `headDirPath if headDirPath is not None else self.HeadDirPath`: only `None` selects the class default -/
+def chooseHead (param : Option (List Nat)) (classDefault : List Nat) : List Nat :=
+  match param with
+  | some h => h
+  | none => classDefault
+
 /-- `os.path.split(path)[0]` of a normalised absolute path -/
 def dirname (p : P) : P := p.dropLast
 
@@ -102,7 +128,8 @@ def kind? : FS → P → Option Kind
   | (q, k) :: fs, p => if q = p then some k else kind? fs p
 
 def fexists (fs : FS) (p : P) : Bool := p = [] || (kind? fs p).isSome
-def isfile (fs : FS) (p : P) : Bool := kind? fs p = some .file
+/-- `os.path.isfile` follows links -/
+def isfile (fs : FS) (p : P) : Bool := kind? fs p = some .file || kind? fs p = some .flink
 
 /-- all prefixes of a path, shortest first (`[]` included) -/
 def inits : P → List P
@@ -115,9 +142,8 @@ def addDirs : FS → List P → Option FS
   | fs, q :: qs =>
     if q = [] then addDirs fs qs
     else match kind? fs q with
-      | some .dir => addDirs fs qs
-      | some .file => none
       | none => addDirs (fs ++ [(q, .dir)]) qs
+      | some k => if k = .dir || k = .dlink then addDirs fs qs else none
 
 /-- `os.makedirs(p)` (exist_ok False) -/
 def makedirs (fs : FS) (p : P) : Except Exn FS :=
@@ -129,16 +155,16 @@ def makedirs (fs : FS) (p : P) : Except Exn FS :=
 /-- `ocfn(path)`: open the existing file or create it -/
 def ocfn (fs : FS) (p : P) : Except Exn FS :=
   match kind? fs p with
-  | some .file => .ok fs
-  | some .dir => .error .osError
+  | some k => if k = .file || k = .flink then .ok fs else .error .osError       -- opened through a link to a file; a directory cannot be opened
   | none => if p = [] then .error .osError
     else if fexists fs (dirname p) && !isfile fs (dirname p) then .ok (fs ++ [(p, .file)]) else .error .osError
 
 /-- `os.remove(p)` -/
 def remove (fs : FS) (p : P) : Except Exn FS :=
-  if isfile fs p then .ok (fs.filter fun e => e.1 ≠ p) else .error .osError
+  -- `os.remove` = unlink: a regular file, or a symbolic link ITSELF whatever it points to; never a directory
+  if isfile fs p || kind? fs p = some .dlink then .ok (fs.filter fun e => e.1 ≠ p) else .error .osError
 
-/-- `shutil.rmtree(p)`: `p` and everything below it -/
+/-- `shutil.rmtree(p)`: `p` and everything below it; refuses a symbolic link and a regular file -/
 def rmtree (fs : FS) (p : P) : Except Exn FS :=
   match kind? fs p with
   | some .dir => .ok (fs.filter fun e => !(p.isPrefixOf e.1))
@@ -153,8 +179,9 @@ structure Cfg where
   temp : Bool
   filed : Bool
   ext : Bool
-  head : P
+  head : P                    -- the requested head directory, resolved (`resolveHead` of the parameter or the class default)
   tempHead : P
+  altHead : P := []           -- `AltHeadDirPath`, resolved: where `remake` falls back to when the head cannot be used
   badName : Bool := false     -- `name` is not path-like (None, an int): `os.path.isabs(name)` raises `TypeError`
   badBase : Bool := false     -- the same for `base`
 
@@ -169,9 +196,14 @@ structure St where
   temp : Bool
   fext : List Nat
   opened : Bool        -- `self.opened`
+  name : List Nat      -- `self.name`, `self.base`, `self.filed`, `self.extensioned`: plain attributes a caller may assign
+  base : List Nat
+  filed : Bool
+  ext : Bool
 
-/-- the configuration in force: construction parameters with the current `temp` / `fext` -/
-def cur (c : Cfg) (s : St) : Cfg := { c with temp := s.temp, fext := s.fext }
+/-- the configuration in force: construction parameters with the current attribute values -/
+def cur (c : Cfg) (s : St) : Cfg :=
+  { c with temp := s.temp, fext := s.fext, name := s.name, base := s.base, filed := s.filed, ext := s.ext }
 
 /-- the creation part shared by both branches of `remake`:
 `if filed or extensioned: makedirs(dirname) if missing; if filed: ocfn(path)   else: makedirs(path)` -/
@@ -222,6 +254,50 @@ def remake (c : Cfg) (clean : Bool) (fs : FS) (n : Nat) : FS × Nat × Except Ex
           | .ok fs3 => (fs3, n, .ok path)
         else (fs2, n, .ok path)
 
+/-- the state in which the persistent branch of `remake` gives up on the requested head: the path does not exist and
+creating it raised an `OSError` (`except OSError: use alt instead`); the filesystem after the `clean` step -/
+def needsAlt (c : Cfg) (clean : Bool) (fs : FS) : Option FS :=
+  if c.temp || isabs c.name || isabs c.base then none
+  else
+    let name := withExt c.name c.fext c.filed c.ext
+    if isabs name then none
+    else if (relWalk [] (splitSlash c.base ++ splitSlash name)).isNone then none
+    else
+      let path := fullPath c.head clean c.base name
+      match cleanOld c clean fs path with
+      | .error _ => none
+      | .ok fs2 =>
+        if !fexists fs2 path then
+          match create c fs2 path with
+          | .error _ => some fs2
+          | .ok _ => none
+        else none
+
+/-- the fallback: the same construction below the alternative head and tail; no `try` around it any more -/
+def altCreate (c : Cfg) (clean : Bool) (fs : FS) (n : Nat) : FS × Nat × Except Exn P :=
+  let name := withExt c.name c.fext c.filed c.ext
+  let path := fullPathT c.altHead (altTailSegs clean) c.base name
+  if !fexists fs path then
+    match create c fs path with
+    | .error e => (fs, n, .error e)
+    | .ok fs3 => (fs3, n, .ok path)
+  else if c.filed then
+    match ocfn fs path with
+    | .error e => (fs, n, .error e)
+    | .ok fs3 => (fs3, n, .ok path)
+  else (fs, n, .ok path)
+
+/-- `remake` with its two environment-dependent branches: `mkdtemp` needs `TempHeadDir` to exist, and the persistent
+branch falls back to the alternative head when the requested one cannot be created -/
+def remakeFull (c : Cfg) (clean : Bool) (fs : FS) (n : Nat) : FS × Nat × Except Exn P :=
+  if c.temp && !fexists fs c.tempHead && !(isabs c.name || isabs c.base) then
+    (if (isabs (withExt c.name c.fext c.filed c.ext) ||
+        (relWalk [] (splitSlash c.base ++ splitSlash (withExt c.name c.fext c.filed c.ext))).isNone)
+      then (fs, n, .error .filerError) else (fs, n, .error .osError))
+  else match needsAlt c clean fs with
+    | some fs2 => altCreate c clean fs2 n
+    | none => remake c clean fs n
+
 /-- `_clearPath()` -/
 def clearPath (c : Cfg) (fs : FS) : Option P → Except Exn FS
   | none => .ok fs
@@ -254,10 +330,10 @@ def reopenTail (c : Cfg) (s : St) (reuse clean : Bool) : St × Except Exn Unit :
     | some p => fexists s.fs p && reuse
     | none => false
   if !keep then
-    match remake (cur c s) clean s.fs s.tmpN with
+    match remakeFull (cur c s) clean s.fs s.tmpN with
     | (fs, n, .ok p) => ({ s with fs := fs, tmpN := n, path := some p, opened := true }, .ok ())
     | (fs, n, .error e) => ({ s with fs := fs, tmpN := n }, .error e)
-  else if c.filed then
+  else if s.filed then
     match s.path with
     | some p => (match ocfn s.fs p with
       | .ok fs => ({ s with fs := fs, opened := true }, .ok ())
@@ -279,6 +355,13 @@ inductive Step
   | close (clear : Bool)
   | exit (clear : Bool)     -- leaving `with openFiler(..., clear=clear)`: `filer.close(clear=filer.temp or clear)`
   | exists                  -- `filer.exists(...)`: a query, touches nothing
+  | setName (v : List Nat)  -- `filer.name = v` … plain attribute assignment after construction; the next `reopen` uses it
+  | setBase (v : List Nat)
+  | setFiled (b : Bool)
+  | setExt (b : Bool)
+  | remake (name base : List Nat) (temp clean filed ext : Bool)
+                            -- a direct call of the public `filer.remake(name=…, base=…, temp=…, clean=…, filed=…, extensioned=…)`:
+                            -- builds (and cleans) the path it is asked for, changes nothing on the Filer itself
   | doer (temp : Option Bool)   -- a `FilerDoer` run by a Doist with `temp` injected (`doist.do(temp=…)`, `Doist(temp=True)`,
                                 -- `FilerDoer(temp=True)`): `enter` reopens ONLY when not opened, `exit` closes with `clear=filer.temp`
 
@@ -287,6 +370,14 @@ def step (c : Cfg) (s : St) : Step → St × Except Exn Unit
   | .close a => close c s a
   | .exit a => close c s (s.temp || a)
   | .exists => (s, .ok ())
+  | .setName v => ({ s with name := v }, .ok ())
+  | .setBase v => ({ s with base := v }, .ok ())
+  | .setFiled b => ({ s with filed := b }, .ok ())
+  | .setExt b => ({ s with ext := b }, .ok ())
+  | .remake nm bs t cl f e =>
+    match remakeFull { cur c s with name := nm, base := bs, temp := t, filed := f, ext := e } cl s.fs s.tmpN with
+    | (fs, n, .ok _) => ({ s with fs := fs, tmpN := n }, .ok ())
+    | (fs, n, .error ex) => ({ s with fs := fs, tmpN := n }, .error ex)
   | .doer t =>
     if s.opened then close c s s.temp
     else match reopen c s false false false t none with
@@ -302,7 +393,7 @@ def construct (c : Cfg) (s : St) (clean : Bool) : St × Except Exn Unit :=
   else reopen c s false false clean none none
 
 /-- a fresh object before its constructor's `reopen` -/
-def fresh (c : Cfg) (fs : FS) : St := ⟨fs, 0, none, c.temp, c.fext, false⟩
+def fresh (c : Cfg) (fs : FS) : St := ⟨fs, 0, none, c.temp, c.fext, false, c.name, c.base, c.filed, c.ext⟩
 
 /-- the state after a whole history of calls (a caller may catch an exception and go on) -/
 def runAll (c : Cfg) (s : St) : List Step → St
